@@ -1,14 +1,19 @@
-(* C07: the finite obligations about Model/DiagMap.v - the table of inventory entry -> model constructor.
-   Everything here is a computation over the 72 keys of the regenerated inventory (vm_compute), turned into
-   quantified statements by forallb_forall / existsb_exists. *)
+(* C07: the finite obligations about the regenerated inventory Gen/DiagSites.v and Model/DiagMap.v.
+   Everything here is a computation over the sites of the inventory (vm_compute), turned into quantified
+   statements by forallb_forall / existsb_exists. *)
 From Coq Require Import List String NArith Bool.
 From CL Require Import Model.Parser Model.AnalysisDiag Gen.DiagSites Model.DiagMap Proofs.DiagPlaced.
 Import ListNotations.
 
-(* the keys of the table are the keys of the inventory (the entries without their message), one by one, in order *)
-Lemma table_keys : map fst table = map site_key DiagSites.sites.
+(* every site is given a constructor of the models and agrees with it *)
+Lemma sites_ok : forall s, In s DiagSites.sites -> site_ok s = true.
+Proof. apply forallb_forall. vm_compute. reflexivity. Qed.
+
+(* the pinned rows are those of the sites *)
+Lemma summary_is_ok : summary_ok DiagSites.sites DiagSites.summary = true.
 Proof. vm_compute. reflexivity. Qed.
 
+(* the dictionary of Model/DiagMap.v is itself consistent: every row agrees with its constructor *)
 Lemma table_entries_ok : forall e, In e table -> entry_ok e = true.
 Proof. apply forallb_forall. vm_compute. reflexivity. Qed.
 
@@ -19,63 +24,58 @@ Proof. destruct a, b; simpl; intro H; try reflexivity; discriminate. Qed.
 Lemma akind_eqb_eq a b : akind_eqb a b = true -> a = b.
 Proof. destruct a, b; simpl; intro H; try reflexivity; discriminate. Qed.
 
-(* every entry that stands for a kind of Model/AnalysisDiag.v is of the Analysis stage and has the severity
+(* a site that stands for a kind of Model/AnalysisDiag.v is of the Analysis stage and has the severity
    [kind_is_error] gives the kind; no push method contradicts it *)
-Lemma table_kind_severity s k :
-  In (s, AKind k) table ->
-  key_stage s = AtAnalysis /\ key_sev s = sev_of_bool (kind_is_error k) /\
-  forallb (push_ok (key_sev s)) (key_pushes s) = true.
+Lemma site_kind_severity s k :
+  In s DiagSites.sites -> site_target s = Some (AKind k) ->
+  site_stage s = AtAnalysis /\ site_sev s = sev_of_bool (kind_is_error k) /\
+  forallb (push_ok (site_sev s)) (site_pushes s) = true.
 Proof.
-  intro H. apply table_entries_ok in H. unfold entry_ok in H. cbn [fst snd] in H.
-  apply andb_prop in H. destruct H as [Hp H]. apply andb_prop in H. destruct H as [H1 H2].
+  intros Hin Ht. apply sites_ok in Hin. unfold site_ok in Hin. rewrite Ht in Hin.
+  unfold entry_ok in Hin. cbn [fst snd site_key key_sev key_pushes key_stage] in Hin.
+  apply andb_prop in Hin. destruct Hin as [Hp H]. apply andb_prop in H. destruct H as [H1 H2].
   split; [apply stage_eqb_eq, H1|]. split; [apply sev_eqb_eq, H2 | exact Hp].
 Qed.
 
-(* every entry that stands for a parse-stage code is of the Parse stage, the code is one of [all_pcodes], and
-   the entry has the severity the parser model builds that code with *)
-Lemma table_pcode_severity s c :
-  In (s, PCode c) table ->
-  key_stage s = AtParse /\ pcode_sev c = Some (pcode_is_error c) /\ key_sev s = sev_of_bool (pcode_is_error c) /\
-  forallb (push_ok (key_sev s)) (key_pushes s) = true.
+(* a site that stands for a parse-stage code is of the Parse stage, the code is one of [all_pcodes], and the site
+   has the severity the parser model builds that code with *)
+Lemma site_pcode_severity s c :
+  In s DiagSites.sites -> site_target s = Some (PCode c) ->
+  site_stage s = AtParse /\ pcode_sev c = Some (pcode_is_error c) /\ site_sev s = sev_of_bool (pcode_is_error c) /\
+  forallb (push_ok (site_sev s)) (site_pushes s) = true.
 Proof.
-  intro H. apply table_entries_ok in H. unfold entry_ok in H. cbn [fst snd] in H.
-  apply andb_prop in H. destruct H as [Hp H]. apply andb_prop in H. destruct H as [H1 H2].
+  intros Hin Ht. apply sites_ok in Hin. unfold site_ok in Hin. rewrite Ht in Hin.
+  unfold entry_ok in Hin. cbn [fst snd site_key key_sev key_pushes key_stage] in Hin.
+  apply andb_prop in Hin. destruct Hin as [Hp H]. apply andb_prop in H. destruct H as [H1 H2].
   split; [apply stage_eqb_eq, H1|]. unfold pcode_is_error. destruct (pcode_sev c) as [b|]; [|discriminate].
   split; [reflexivity|]. split; [apply sev_eqb_eq, H2 | exact Hp].
 Qed.
 
 (* constructors and macro bodies give the severity their name says *)
-Lemma table_ctor_ok s : In (s, Ctor) table -> ctor_ok s = true.
+Lemma site_ctor_ok s : In s DiagSites.sites -> site_target s = Some Ctor -> ctor_ok (site_key s) = true.
 Proof.
-  intro H. apply table_entries_ok in H. unfold entry_ok in H. cbn [fst snd] in H.
-  apply andb_prop in H. exact (proj2 H).
+  intros Hin Ht. apply sites_ok in Hin. unfold site_ok in Hin. rewrite Ht in Hin.
+  unfold entry_ok in Hin. cbn [fst snd] in Hin. apply andb_prop in Hin. exact (proj2 Hin).
 Qed.
 
-(* every kind of the analysis model is the image of an entry ... *)
-Lemma kinds_covered : forall k : akind, exists s, In (s, AKind k) table.
+(* every kind of the analysis model is the constructor of a site ... *)
+Lemma kinds_covered : forall k : akind, exists s, In s DiagSites.sites /\ site_target s = Some (AKind k).
 Proof.
-  assert (H : forallb (fun k => existsb (is_kind k) table) all_kinds = true) by (vm_compute; reflexivity).
+  assert (H : forallb (fun k => existsb (site_is_kind k) DiagSites.sites) all_kinds = true) by (vm_compute; reflexivity).
   intro k. pose proof (proj1 (forallb_forall _ _) H k (all_kinds_complete k)) as E.
-  apply existsb_exists in E. destruct E as [[s t] [Hin Hk]]. unfold is_kind in Hk. cbn [snd] in Hk.
-  destruct t; try discriminate. apply akind_eqb_eq in Hk. subst. exists s. exact Hin.
+  apply existsb_exists in E. destruct E as [s [Hin Hk]]. unfold site_is_kind in Hk.
+  destruct (site_target s) as [[c|k'|  |  |w]|] eqn:Et; try discriminate.
+  apply akind_eqb_eq in Hk. subst. exists s. split; [exact Hin | exact Et].
 Qed.
 
 (* ... and so is every code of the parser model *)
-Lemma pcodes_covered : forall c : N, In c all_pcodes -> exists s, In (s, PCode c) table.
+Lemma pcodes_covered : forall c : N, In c all_pcodes -> exists s, In s DiagSites.sites /\ site_target s = Some (PCode c).
 Proof.
-  assert (H : forallb (fun c => existsb (is_pcode c) table) all_pcodes = true) by (vm_compute; reflexivity).
+  assert (H : forallb (fun c => existsb (site_is_pcode c) DiagSites.sites) all_pcodes = true) by (vm_compute; reflexivity).
   intros c Hc. pose proof (proj1 (forallb_forall _ _) H c Hc) as E.
-  apply existsb_exists in E. destruct E as [[s t] [Hin Hk]]. unfold is_pcode in Hk. cbn [snd] in Hk.
-  destruct t; try discriminate. apply N.eqb_eq in Hk. subst. exists s. exact Hin.
-Qed.
-
-(* conversely the table names no constructor the models lack: a PCode is a code of [all_pcodes] *)
-Lemma table_pcodes_known s c : In (s, PCode c) table -> In c all_pcodes.
-Proof.
-  intro H. destruct (table_pcode_severity s c H) as [_ [E _]]. unfold pcode_sev in E.
-  unfold all_pcodes. revert E. generalize pcode_table. intro l. induction l as [|[k b] r IH]; cbn [pcode_lookup map fst].
-  - discriminate.
-  - destruct (N.eqb k c) eqn:Ek; [intros _; left; apply N.eqb_eq, Ek | intro E; right; apply IH, E].
+  apply existsb_exists in E. destruct E as [s [Hin Hk]]. unfold site_is_pcode in Hk.
+  destruct (site_target s) as [[c'|k'|  |  |w]|] eqn:Et; try discriminate.
+  apply N.eqb_eq in Hk. subst. exists s. split; [exact Hin | exact Et].
 Qed.
 
 (* ---- from a diagnostic of the models back to the place of the code that makes it ---- *)
@@ -90,41 +90,28 @@ Proof.
   - destruct (N.eqb k c) eqn:Ek; [intros _; left; apply N.eqb_eq, Ek | intro E; right; apply IH, E].
 Qed.
 
-Lemma in_table_site k t : In (k, t) table -> exists st, In st DiagSites.sites /\ site_key st = k.
-Proof.
-  intro H. pose proof (in_map fst _ _ H) as K. rewrite table_keys in K. cbn [fst] in K.
-  apply in_map_iff in K. destruct K as [st [E Hin]]. exists st. split; [exact Hin | exact E].
-Qed.
-
 (* every diagnostic the parser model emits, on any source under any extension set, is made at a place of
    src/parser that the inventory lists with the Parse stage and with the severity of that diagnostic *)
 Lemma parse_diag_has_site U c s evs d :
   events U c s = Done evs -> In (EvDiag d) evs ->
-  exists st, In st DiagSites.sites /\ In (site_key st, PCode (d_code d)) table /\
+  exists st, In st DiagSites.sites /\ site_target st = Some (PCode (d_code d)) /\
              site_stage st = AtParse /\ site_sev st = sev_of_bool (d_err d).
 Proof.
   intros E Hin. pose proof (DiagSeverity.events_code_severity U c s evs d E Hin) as Hs.
-  destruct (pcodes_covered _ (pcode_sev_known _ _ Hs)) as [k Ht].
-  destruct (table_pcode_severity _ _ Ht) as [H1 [H2 [H3 _]]].
-  destruct (in_table_site _ _ Ht) as [st [Hst Ek]]. subst k.
+  destruct (pcodes_covered _ (pcode_sev_known _ _ Hs)) as [st [Hst Ht]].
+  destruct (site_pcode_severity _ _ Hst Ht) as [H1 [H2 [H3 _]]].
   exists st. split; [exact Hst|]. split; [exact Ht|]. split; [exact H1|].
-  change (site_sev st) with (key_sev (site_key st)).
   rewrite H3. rewrite Hs in H2. injection H2 as <-. reflexivity.
 Qed.
 
 (* every diagnostic of the analysis model is made at a place of src/analysis that the inventory lists with the
    Analysis stage and with the severity of the SourceDiag the model reports for it *)
 Lemma analysis_diag_has_site (d : adiag) :
-  exists st, In st DiagSites.sites /\ In (site_key st, AKind (ad_kind d)) table /\
+  exists st, In st DiagSites.sites /\ site_target st = Some (AKind (ad_kind d)) /\
              site_stage st = AtAnalysis /\ site_sev st = sev_of_bool (sd_is_error (to_sdiag d)).
 Proof.
-  destruct (kinds_covered (ad_kind d)) as [k Ht].
-  destruct (table_kind_severity _ _ Ht) as [H1 [H2 _]].
-  destruct (in_table_site _ _ Ht) as [st [Hst Ek]]. subst k.
+  destruct (kinds_covered (ad_kind d)) as [st [Hst Ht]].
+  destruct (site_kind_severity _ _ Hst Ht) as [H1 [H2 _]].
   exists st. split; [exact Hst|]. split; [exact Ht|]. split; [exact H1|].
-  change (site_sev st) with (key_sev (site_key st)).
   rewrite H2. rewrite (proj1 (to_sdiag_severity d)). reflexivity.
 Qed.
-
-(* the diagnostics of the code that no constructor of the models stands for *)
-Definition unmodelled_sites : list key := map fst (filter is_unmodelled table).
